@@ -141,6 +141,28 @@ func matrixC04(t *testing.T, r *ev.Run) {
 	}
 }
 
+// f11C04 reproduces the recorded finding F11 for C04 deterministically: the SK expires while a younger IK is still
+// valid; a cold cache decrypts a record of the partition (which seeds its "latest" alias without validating the
+// parent) and then encrypts.
+func f11C04(t *testing.T, r *ev.Run) {
+	E, R, P := time.Hour, 5*time.Minute, time.Minute
+	scripted(t, r, "c04/f11-decrypt-seeds-latest", OC04, E, R, P, func(h *hist) {
+		time.Sleep(17 * time.Second)
+		fa := h.factWith(matrixCfgs()[0].cfg)
+		seed := h.openSess(fa, "seed")
+		h.encrypt(seed) // SK born now
+		time.Sleep(E / 2)
+		s := h.openSess(fa, "P")
+		h.encrypt(s) // IK_P born half a lifetime later
+		rec := h.recs[len(h.recs)-1]
+		time.Sleep(E/2 + 2*R) // SK expired two intervals ago, IK_P still valid
+		fb := h.factWith(matrixCfgs()[0].cfg)
+		cs := h.openSess(fb, "P")
+		h.decrypt(cs, rec, "fresh-factory")
+		h.encrypt(cs)
+	})
+}
+
 // matrixC05: fill a cache, flip a key in the raw store at a chosen offset, optionally let another process rotate,
 // then encrypt through the long-lived session every R/4 for 4R.
 func matrixC05(t *testing.T, r *ev.Run) {
